@@ -225,7 +225,11 @@ def latest_cases(chk, drv, work):
     rng = chk.rng
     for it in range(chk.n(6, 16)):
         folder = os.path.join(work, 'lat_%d' % it)          # underscore and dot in the folder name on purpose
-        folder = folder + rng.choice(['', '_v1.5', '.d_x'])
+        folder = folder + rng.choice(['', '_v1.5', '.d_x', '_grid_8x8x4', '.grid_16'])
+        if rng.random() < 0.3:
+            # a parent directory whose name looks like a checkpoint name
+            folder = os.path.join(work, 'scan_grid_%d' % rng.choice([3, 16, 250]), os.path.basename(folder))
+            os.makedirs(os.path.dirname(folder), exist_ok=True)
         npts = [rng.randint(4, 6) for _ in range(4)]
         PW = rng.choice(proc_grids(4))
         PR_n = rng.choice([1, 2, 3, 4])
@@ -239,13 +243,18 @@ def latest_cases(chk, drv, work):
         cfile = os.path.join(work, 'c_%d.json' % it)
         write_constants(cfile, npts)
         # (times stay below 10^6: beyond six digits the lexicographic maximum is not the newest file, observation F10)
+        # documented keyword overrides of the set-up (the radial / velocity domain): what the run used is what the parameter file must
+        # give back at the restart
+        over = rng.choice([{}, {}, {'rMin': 1.0, 'rMax': 9.0}, {'rMax': 11.5}, {'vMax': 6.0}, {'rMin': 0.5, 'vMax': 8.25}])
+        attrs_w = {}
         aux_times = sorted(t for t in ({max(times) + 7, min(times) + 1, rng.choice(times) + 3, 5} - set(times)) if t < 10 ** 6)
 
         def prepare():
             comm = MPI.COMM_WORLD
             # the folder and initParams.json are made by the real setupSave from a real Constants object
-            grid, constants, t0 = setupCylindricalGrid(constantFile=cfile, layout=layname, comm=comm, allocateSaveMemory=True)
+            grid, constants, t0 = setupCylindricalGrid(constantFile=cfile, layout=layname, comm=comm, allocateSaveMemory=True, **over)
             setupSave(constants, folder, comm)
+            attrs_w[comm.Get_rank()] = public_attrs(constants)
             for t in times:
                 grid.getAllData()[:] = lu.expected_block(base + t, grid.getLayout(layname))
                 grid.writeH5Dataset(folder, t)
@@ -257,7 +266,7 @@ def latest_cases(chk, drv, work):
         # process grid is chosen by the code itself here (compute_2d_process_grid)
         w = lu.run_ranks(int(np.prod(PW)), prepare)
         case = {'npts': npts, 'times': times, 'requested': want_time, 'ranks_write': int(np.prod(PW)), 'ranks_read': PR_n,
-                'layout': layname, 'folder': os.path.basename(folder)}
+                'layout': layname, 'folder': os.path.relpath(folder, work), 'keyword_overrides': over}
         if not w.ok:
             chk.fail('C18:prepare-crash', 'setupCylindricalGrid/setupSave/writeH5Dataset raised: ' + str(w.first_error())[:200], case)
             continue
@@ -268,7 +277,7 @@ def latest_cases(chk, drv, work):
             grid, constants, t = setupFromFile(folder, comm=comm, allocateSaveMemory=True, layout='v_parallel', **kw)
             L = grid.getLayout(grid.currentLayout)
             out = {'t': t, 'layout': grid.currentLayout, 'blk': np.array(grid.getAllData(), copy=True),
-                   'starts': [int(x) for x in L.starts], 'ends': [int(x) for x in L.ends]}
+                   'starts': [int(x) for x in L.starts], 'ends': [int(x) for x in L.ends], 'constants': public_attrs(constants)}
             # the latest checkpoint of the OTHER family, by name (loadFromFile wants the grid in the layout of the file)
             grid.setLayout(layname)
             grid.loadFromFile(folder, None, 'aux')
@@ -281,6 +290,13 @@ def latest_cases(chk, drv, work):
             continue
         exp_t = max(times) if want_time is None else want_time
         want = np.transpose(base + exp_t, STD4['v_parallel'])
+        cw = attrs_w.get(0)
+        for ri, o in enumerate(r.values()):
+            bad = [k for k in cw if k in o['constants'] and repr(o['constants'][k]) != repr(cw[k])] if cw else []
+            if bad:
+                chk.fail('C18:restart-constants', 'the constants of the restarted run differ from those the first run used and saved: %s' % (
+                    ', '.join('%s %r -> %r' % (k, cw[k], o['constants'][k]) for k in bad[:4])), dict(case, rank=ri, overrides=over))
+                break
         for ri, o in enumerate(r.values()):
             sl = tuple(slice(s, e) for s, e in zip(o['starts'], o['ends']))
             if o['t'] != exp_t or o['layout'] != 'v_parallel' or not same_bits(o['blk'], np.ascontiguousarray(want[sl])):
